@@ -31,6 +31,15 @@ func verifValidFrame(seq byte, kb []byte, ts uint64) []byte {
 	return frame.VerifSpecV2(1, 0, seq, sys, comp, spec.ID(), payload, ck, true, link, ts, sig)
 }
 
+// a valid v1 frame of harness message shape 2 (base layout, 5 bytes)
+func verifValidV1Frame(seq byte) []byte {
+	sys, comp := verifNondetU8(), verifNondetU8()
+	_, full, spec := frame.VerifMsg(2, 0)
+	payload := append([]byte(nil), full[:spec.SizeNormal()]...)
+	ck := frame.VerifSpecChecksumV1(seq, sys, comp, byte(spec.ID()), payload, spec.CRCExtra())
+	return frame.VerifSpecV1(seq, sys, comp, byte(spec.ID()), payload, ck)
+}
+
 // C10 (data clauses): events produced by a channel's reader for a stream made of junk bytes, valid frames and
 // complete frames with a wrong checksum (keyed: wrong/missing signature): open first, then exactly one event per
 // item in arrival order, attributed to the channel; the reader returns the transport's error at the end.
@@ -63,6 +72,7 @@ func verifHarness_C10_reader(keyed int, chunk int) {
 	stream = append(stream, bad...)                        // -> parse error
 	if keyed == 1 {
 		stream = append(stream, verifValidFrame(12, nil, ts)...) // unsigned frame on a keyed link -> parse error
+		stream = append(stream, verifValidV1Frame(14)...)        // v1 frame on a keyed link -> parse error
 	}
 	stream = append(stream, verifValidFrame(13, kb, ts)...)    // -> frame, seq 13
 	var chunks []int
@@ -80,8 +90,8 @@ func verifHarness_C10_reader(keyed int, chunk int) {
 	want := []int{0, 2, 1, 2, 1} // 0 open, 1 frame, 2 parse error
 	seqs := []byte{0, 0, 10, 0, 13}
 	if keyed == 1 {
-		want = []int{0, 2, 1, 2, 2, 1}
-		seqs = []byte{0, 0, 10, 0, 0, 13}
+		want = []int{0, 2, 1, 2, 2, 2, 1}
+		seqs = []byte{0, 0, 10, 0, 0, 0, 13}
 	}
 	verifAssert(len(n.chEvent) == len(want), "C10/one-event-per-item")
 	for i := 0; i < len(want) && len(n.chEvent) > 0; i++ {
